@@ -10,6 +10,12 @@
 (* target "pairs": order-preserving pair list (sees every MapAccess yield) *)
 (* target "map":   overwriting map keyed by fingerprint (BTreeMap-like):   *)
 (*                 observed entries as a set must equal the folded yields. *)
+(* target "ignored" / "unknown": the document read into IgnoredAny / into  *)
+(*                 a struct that knows none of the keys: every value is    *)
+(*                 discarded, yet the document must be rejected exactly    *)
+(*                 when MapAccess!Faulty (a repeated key under the Error   *)
+(*                 policy or an unmergeable `<<` value in a delivered      *)
+(*                 part), with an admissible error class and position.     *)
 (***************************************************************************)
 EXTENDS MapAccess, Json, IOUtils
 Recs == ndJsonDeserialize(IOEnv.TRACE)
@@ -29,6 +35,7 @@ Check(r) ==
   ELSE IF Faulty(x, 1, p) THEN (IF r.obs.c # "ERR" THEN "accepted-faulty"
                                 ELSE IF ErrorAdmissible(r, x, p) THEN "ok" ELSE "wrong-error")
   ELSE IF r.obs.c = "ERR" THEN "spurious-error"
+  ELSE IF r.target \in {"ignored", "unknown"} THEN "ok"      \* a discarding target: only acceptance / rejection is observable
   ELSE IF Conf(r.obs, x, 1, p) THEN "ok" ELSE "wrong-value"
 
 Init == l = 1 /\ TLCSet(1, 0) /\ TLCSet(2, 0)
